@@ -73,7 +73,7 @@ func variants(tier string) []replica.Variant {
 		// every replica combines a map-iteration policy with a shifted wall clock, interleaved
 		// CheckTx/queries and a previously constructed second application object; a divergence is
 		// attributed afterwards by re-running with the sources separated
-		out = append(out, replica.Variant{Name: fmt.Sprintf("map%d+clock+noise+second", k), MapSeed: uint(k), ClockSec: 400 * 86400, Noise: k%2 == 1, NoiseOld: k%4 == 1, Second: k%3 == 0, RestartAt: -1})
+		out = append(out, replica.Variant{Name: fmt.Sprintf("map%d+clock+noise+second+tz+config", k), MapSeed: uint(k), ClockSec: 400 * 86400, Noise: k%2 == 1, NoiseOld: k%4 == 1, Second: k%3 == 0, TZ: []int{0, -8 * 3600, 9 * 3600}[k%3], Config: k%2 == 0, RestartAt: -1})
 	}
 	return out
 }
@@ -91,6 +91,8 @@ func attribute(f *replica.Fix, h replica.History, ref replica.Trace, v replica.V
 	try("clock", replica.Variant{ClockSec: v.ClockSec})
 	try("noise", replica.Variant{Noise: true, NoiseOld: v.NoiseOld})
 	try("second", replica.Variant{Second: true})
+	try("timezone", replica.Variant{TZ: v.TZ})
+	try("node-config", replica.Variant{Config: v.Config})
 	if len(causes) == 0 {
 		return "combination"
 	}
